@@ -13,7 +13,7 @@ TECHNIQUE = ("Lean 4 proof: invariant of the six-step machine (a fold over the c
 RULE = ("corpus (D7 witnesses, the repo's own co-author test inputs); every string of <= k tokens over "
         "{A, and, AND, And, an, d, space, tab, newline, ~, {, }, \\x, \\ (lone), ','} (k=5 quick: exhaustive for that "
         "alphabet; k=6 thorough); every string of <= 6 (thorough 7) tokens over the coarser alphabet {A, ' and ', space, {, }, "
-        "\\{, \\}, '\\ ', \\} (escaped braces inside groups followed by separators); random long author lists (2-40 names, mixed separators, braces, escapes, non-ASCII); "
+        "\\{, \\}, '\\ ', \\} (escaped braces inside groups followed by separators); every string of <= 5 tokens over {U+0130, sharp s, fi ligature, A, ' and ', space, lone CR, NBSP, CRLF}; random long author lists (2-40 names, mixed separators, braces, escapes, non-ASCII); "
         "SeparateCoAuthors / MergeCoAuthors on entries with author/editor/translator and other fields, both "
         "allow_inplace_modification settings. Compared: the complete list of pieces (resp. the complete transformed "
         "block). Non-trivial = at least one piece returned.")
@@ -102,6 +102,10 @@ def gen(tier, rng):
     for t in C.token_strings(ALPHABET, k):
         yield {"t": t}
     for t in C.token_strings(ALPHABET2, 6 if tier == "quick" else 7):
+        yield {"t": t}
+    # characters whose case mapping changes the LENGTH of the text (U+0130 lower-cases to two code points, sharp s and
+    # the fi ligature upper-case to two letters), a lone CR, whitespace outside BibTeX's set: offsets must not drift
+    for t in C.token_strings(["\u0130", "\u00df", "\ufb01", "A", " and ", " ", "\r", "\u00a0", "\r\n"], 5 if tier == "quick" else 6):
         yield {"t": t}
     # the reference splitter of the Lean statement `exact_rule` itself, against the real function
     # (on inputs without an unmatched closing brace, where the theorem says they agree)
